@@ -1,6 +1,7 @@
 //! vlib: the only place where the properties of /verif/properties.jsonl are stated as
 //! code. See /verif/DESIGN.md.
 
+pub mod alloc;
 pub mod arena;
 pub mod choice;
 pub mod cmp;
